@@ -177,6 +177,7 @@ pub fn build(id: &str, tier: &str, seed: u64, threads: usize) -> Option<Plan> {
                 }
                 fam_single(b, false, 2, &mut cases);
                 fam_strays(b, &mut cases);
+                fam_pre_existing(b, &mut cases);
                 fam_random(b, &mut rng, if q { 4 } else { 500 }, 6, &mut cases);
                 if !q && b.spec.w <= 4 && b.spec.b <= 512 && b.spec.nblocks() <= 2 * b.spec.w as u64 + 1 {
                     fam_pairs(b, false, 1, &mut cases);
